@@ -76,11 +76,7 @@ func (h GET) Do(w http.ResponseWriter, r *http.Request, exec graphql.GraphExecut
 
 	opCtx, gqlError := exec.CreateOperationContext(r.Context(), raw)
 	if gqlError != nil {
-		if contentType == acceptApplicationGraphqlResponseJson {
-			w.WriteHeader(statusForGraphQLResponse(gqlError))
-		} else {
-			w.WriteHeader(statusFor(gqlError))
-		}
+		w.WriteHeader(statusForResponse(w, gqlError))
 		resp := exec.DispatchError(graphql.WithOperationContext(r.Context(), opCtx), gqlError)
 		writeJson(w, resp)
 		return
